@@ -52,7 +52,7 @@ def evaluate(mod, run, lines, want_model=True):
     if want_model:
         idx = [i for i, l in enumerate(lines) if model_ops is None or l.split(" ", 1)[0] in model_ops]
         try:
-            outs = C.run_driver("Driver.lean", [lines[i] for i in idx], tag=f"model-{run.prop}")
+            outs = C.run_driver(mod.DRIVER, [lines[i] for i in idx], tag=f"model-{run.prop}")
             for i, o in zip(idx, outs):
                 model_out[i] = o
         except C.DriverError as e:
@@ -61,7 +61,7 @@ def evaluate(mod, run, lines, want_model=True):
     skip = getattr(mod, "spec_skip", None)
     sidx = [i for i, l in enumerate(lines) if not (skip and skip(l))]
     spec_out = ["n/a"] * len(lines)
-    souts = C.run_driver("SpecDriver.lean", [f"{lines[i]} => {impl_out[i]}" for i in sidx], tag=f"spec-{run.prop}")
+    souts = C.run_driver(mod.SPEC_DRIVER, [f"{lines[i]} => {impl_out[i]}" for i in sidx], tag=f"spec-{run.prop}")
     for i, o in zip(sidx, souts):
         spec_out[i] = o
     err_class = getattr(mod, "ERR_CLASS", False)
@@ -101,7 +101,7 @@ def main(argv):
         return replay(mod, run, a.replay)
 
     # 1 translate ---------------------------------------------------------------------------
-    tr = C.translate()
+    tr = C.translate() if not os.environ.get("VERIF_NO_TRANSLATE") else {"status": "ok", "skipped": True}
     broken = []   # proof obligations / ties that no longer check (not yet violations)
     if tr.get("status") != "ok":
         needed = set(getattr(mod, "GEN_NEEDS", []))
@@ -111,7 +111,12 @@ def main(argv):
     # 2 build -------------------------------------------------------------------------------
     prop_file = os.path.join(C.LEAN, mod.LEAN_MODULE.replace(".", "/") + ".lean")
     theorems = C.theorems_of(prop_file)
-    build_ok, build_out = (True, "") if a.skip_build else C.lake_build([mod.LEAN_MODULE, "BioCantor.Driver.All", "BioCantor.Driver.SpecAll"])
+    spec_ok, spec_out = (True, "") if a.skip_build else C.lake_build(list(mod.SPEC_DRIVER_MODULES))
+    if not spec_ok:
+        C.log(spec_out[-3000:])
+        print(f"[{mod.ID}] infrastructure failure: the spec driver does not build", file=sys.stderr)
+        return 2
+    build_ok, build_out = (True, "") if a.skip_build else C.lake_build([mod.LEAN_MODULE] + list(mod.DRIVER_MODULES))
     discharged = len(theorems)
     audit_rep = {}
     if not build_ok:
@@ -126,7 +131,7 @@ def main(argv):
             discharged = audit_rep.get("audited", 0) - len(audit_rep.get("bad_axioms", {}))
     # 4 correspondence + spec ---------------------------------------------------------------
     lines = corpus_lines(mod.ID) + list(mod.cases(run))
-    model_usable = build_ok or _driver_builds()
+    model_usable = build_ok or _driver_builds(mod)
     evaluate(mod, run, lines, want_model=model_usable)
     if hasattr(mod, "extra_checks"):
         mod.extra_checks(run)
@@ -206,8 +211,8 @@ def main(argv):
     return rc
 
 
-def _driver_builds():
-    ok, _ = C.lake_build(["BioCantor.Driver.All"])
+def _driver_builds(mod):
+    ok, _ = C.lake_build(list(mod.DRIVER_MODULES))
     return ok
 
 
